@@ -101,6 +101,16 @@ def make_specs(seed, quick, volume=1):
                 specs.append({"seed": seed, "salt": salt, "sys": "1qubit", "kind": kind, "para": para, "data": "exact_i",
                               "shots": 1000, "m": m, "eps_proj": None,
                               "ests": [("lme", "fse", "pgdb", "eq_ineq"), ("lme", "fre", "pgdb", "eq_ineq")], "noseq": True})
+    # (d) imperfect over-complete testers + noisy data of a deep-interior object: a positive linear estimate that is off the
+    #     equality constraint (on_para_eq_constraint=False) must still be projected
+    for rep in range((2 if quick else 6) * volume):
+        for sysname, kind, shots in ([("1qubit", "qst", 50), ("1qubit", "qst", 300), ("1qubit", "qpt", 3000), ("1qubit", "qmpt", 3000)]
+                                     + ([] if quick else [("1qutrit", "qst", 200)])):
+            for para in (False, True):
+                salt += 1
+                specs.append({"seed": seed, "salt": salt, "sys": sysname, "kind": kind, "para": para, "data": "noisy_int",
+                              "shots": shots, "m": 2 if kind == "qmpt" else None, "eps_proj": None, "testers": "ineff",
+                              "ests": [("ple", "eq_ineq"), ("ple", "ineq_eq"), ("lme", "fse", "fista", "eq_ineq")], "noseq": True})
     # (c) the installed projections leave physical points where they are
     for rep in range((2 if quick else 6) * volume):
         for sysname in (["1qubit"] if quick else ["1qubit", "1qutrit"]):
@@ -157,9 +167,19 @@ def eval_fixpoint(spec):
 
 def setup(spec):
     g = gen(spec["seed"], spec["salt"])
-    qt, c, m = L.make_qt(g, spec["kind"], spec["sys"], spec["para"], m=spec["m"], eps_proj_physical=spec["eps_proj"])
+    qt, c, m = L.make_qt(g, spec["kind"], spec["sys"], spec["para"], m=spec["m"], eps_proj_physical=spec["eps_proj"],
+                         testers=spec.get("testers", "mub"))
     true = L.true_object(g, spec["kind"], c, m, "boundary" if spec["data"] == "exact_b" else "interior")
-    if spec["data"] == "few":
+    if spec["data"] == "noisy_int":
+        # noisy data of an object deep inside the physical set (equal mixture of a random full-rank object and the origin
+        # object; the forward model is affine): the linear estimate is typically positive, but not on the equality constraint
+        origin = qt.generate_empty_estimation_obj_with_setting_info().generate_origin_obj()
+        empi = []
+        for pa, pb in zip(qt.calc_prob_dists(true), qt.calc_prob_dists(origin)):
+            pmix = np.clip(0.5 * np.array(pa, dtype=float) + 0.5 * np.array(pb, dtype=float), 0, None)
+            pmix = pmix / pmix.sum()
+            empi.append((spec["shots"], g.multinomial(spec["shots"], pmix) / spec["shots"]))
+    elif spec["data"] == "few":
         empi = L.fewshot_data(g, qt, true, spec["shots"])
     elif spec["data"].startswith("exact"):
         empi = L.exact_data(qt, true)
@@ -291,6 +311,8 @@ def eval_spec(spec):
                 cnt("reference projection not converged")
             # the projection must not move a physical linear estimate, and must move an unphysical one to the boundary
             le, li = L.defects(lin)
+            if li >= 0 and le > 1e-6:
+                cnt("linear estimate positive but off the equality constraint")
             if le <= 1e-12 and li >= 1e-9 and np.linalg.norm(lin.to_stacked_vector() - obj.to_stacked_vector()) > 1e-6:
                 viol(f"C10/ple/{kind}/moves-physical-linear-estimate", f"{name}: physical linear estimate was changed", est)
         elif r.detailed_results:
